@@ -30,6 +30,9 @@ type C11Case struct {
 	From       int64       `json:"from"`
 	Until      int64       `json:"until"`
 	ArchiveID  int         `json:"archive_id"`
+	// LinkDir: the directory of the first source file is moved outside the tree and replaced by a symbolic link to
+	// it (item directories that live on another volume): an item is what its path leads to
+	LinkDir bool `json:"link_dir,omitempty"`
 }
 
 func runC11(c C11Case, ev *Evid) (fs []Finding) {
@@ -47,6 +50,16 @@ func runC11(c C11Case, ev *Evid) (fs []Finding) {
 	if err := buildTree(base, c.Files, now); err != nil {
 		add("setup", "%v", err)
 		return
+	}
+	if c.LinkDir {
+		d := filepath.Join(base, c.Files[0].Dir)
+		target := filepath.Join(dir, "elsewhere")
+		if err := os.Rename(d, target); err == nil {
+			if err := os.Symlink(target, d); err != nil {
+				add("setup", "symlink: %v", err)
+				return
+			}
+		}
 	}
 	items := itemsOf(base, c.ItemPattern)
 	lm := layoutMap(base, c.Files)
@@ -422,6 +435,7 @@ func genC11(t *rapid.T) C11Case {
 	if rapid.IntRange(0, 2).Draw(t, "oneArchive") == 0 {
 		c.ArchiveID = rapid.IntRange(0, len(l.Archives)-1).Draw(t, "archive")
 	}
+	c.LinkDir = rapid.IntRange(0, 6).Draw(t, "linkDir") == 0
 	return c
 }
 
